@@ -4,6 +4,8 @@
 set -u
 patch="$1"; shift
 cd /verif
+# evidence of runs against a changed tree never lands in /verif/evidence
+export VERIF_EVIDENCE_DIR=/verif/build/evidence_scratch
 git -C /repo apply "$patch" || { echo "patch does not apply"; exit 3; }
 trap 'git -C /repo checkout -- . ; git -C /repo status --short | head -3' EXIT
 for p in "$@"; do
